@@ -17,6 +17,7 @@ import (
 	"sort"
 	"strconv"
 	"strings"
+	"sync"
 	"time"
 
 	"verifharness/drv"
@@ -236,8 +237,38 @@ func ppHCL(tok string) string {
 	panic("bad pp " + tok)
 }
 
+var (
+	tlsMu   sync.Mutex
+	tlsAddr = map[bool]string{}
+)
+
+// sharedTLS: one TLS target with and one without HTTP/2 for the whole driver process
+func sharedTLS(h2 bool) string {
+	tlsMu.Lock()
+	defer tlsMu.Unlock()
+	if a, ok := tlsAddr[h2]; ok {
+		return a
+	}
+	a, _ := shot.NewTLSTarget(h2)
+	tlsAddr[h2] = a
+	return a
+}
+
+// fmtRun renders the observation of an engine run. A run during which the MACHINE ran out of local ports (many checks
+// run at once; errno EADDRNOTAVAIL / EADDRINUSE on the client side) says nothing about the guns: INCONCLUSIVE.
 func fmtRun(res shot.Result) string {
 	cnt := map[string]int{}
+	// (the scripted gRPC server always answers the reflection calls of the warm-up: a warm-up that fails means the
+	// machine was too busy to complete it within the gun's one-second dial timeout)
+	if strings.Contains(res.Class, "assign_requested_address") || strings.Contains(res.Class, "address_already_in_use") ||
+		strings.Contains(res.Class, "gun_warm_up_failed") {
+		return "INCONCLUSIVE machine too busy (ports / warm-up): " + res.Class
+	}
+	for _, s := range res.Samples {
+		if s.Net == 98 || s.Net == 99 {
+			return "INCONCLUSIVE local ports exhausted (errno " + strconv.Itoa(s.Net) + ")"
+		}
+	}
 	for _, s := range res.Samples {
 		nc := "0"
 		if s.Net != 0 {
@@ -289,7 +320,21 @@ func httpGunYAML(typ, target string, m map[string]string) string {
 	return fmt.Sprintf(`{type: "%s", target: "%s", dial: {timeout: 2s}%s}`, typ, target, gunOpts(m))
 }
 
+// runRun runs one engine case. Every scripted exchange takes milliseconds, the scripted silences end after the
+// configured 0.6 - 1 s timeouts; a run that needs more than slowRun (but finishes) was starved by the machine (CPU,
+// local ports: gRPC calls then wait for a connection until their 15 s deadline) and says nothing about the guns.
+const slowRun = 8 * time.Second
+
 func runRun(m map[string]string) string {
+	t0 := time.Now()
+	obs := runRun1(m)
+	if d := time.Since(t0); d > slowRun && !strings.HasPrefix(obs, "res=hang") && !strings.HasPrefix(obs, "res=panic") {
+		return fmt.Sprintf("INCONCLUSIVE machine too busy: the run took %d s", int(d.Seconds()))
+	}
+	return obs
+}
+
+func runRun1(m map[string]string) string {
 	inst := atoi(m["inst"], 1)
 	gun := m["gun"]
 	debug := m["dbg"] == "1"
@@ -301,26 +346,21 @@ func runRun(m map[string]string) string {
 			reqs = append(reqs, shot.HTTPReq{Tag: fmt.Sprintf("r%d", i), URI: fmt.Sprintf("/p/%d", i), Script: f[0]})
 		}
 		var target string
-		var stop func()
 		switch m["tgt"] {
 		case "dead":
 			target = shot.DeadAddr()
-		case "tls2":
-			target, stop = shot.NewTLSTarget(true)
-		case "tls1":
-			target, stop = shot.NewTLSTarget(false)
+		case "tls2", "tls1":
+			target = sharedTLS(m["tgt"] == "tls2")
+		case "c403", "cgarbage", "cextra", "cclose":
+			target = sharedHostile(m["tgt"]).Addr
 		default:
-			t := newHostile()
-			target, stop = t.Addr, t.Close
-		}
-		if stop != nil {
-			defer stop()
+			target = sharedHostile("").Addr
 		}
 		passes := atoi(m["m"], 1)
 		f := shot.TempFile(".uri", shot.URIAmmo(reqs))
 		conf := shot.PoolYAML("uri", f, fmt.Sprintf(", passes: %d", passes), httpGunYAML(gun, target, m), passes*len(reqs)+inst, inst)
 		return fmtRun(runEngine(conf, 60*time.Second, debug))
-	case "http/scenario":
+	case "http/scenario", "http2/scenario":
 		var steps []shot.ScnStep
 		for i, r := range strings.Split(m["steps"], ";") {
 			f := strings.Split(r, ",")
@@ -344,15 +384,16 @@ func runRun(m map[string]string) string {
 			steps = append(steps, st)
 		}
 		var target string
-		if m["tgt"] == "dead" {
+		switch m["tgt"] {
+		case "dead":
 			target = shot.DeadAddr()
-		} else {
-			t := newHostile()
-			target = t.Addr
-			defer t.Close()
+		case "tls2", "tls1":
+			target = sharedTLS(m["tgt"] == "tls2")
+		default:
+			target = sharedHostile("").Addr
 		}
 		f := shot.TempFile(".hcl", shot.ScenarioHCL("scn", steps))
-		conf := shot.PoolYAML("http/scenario", f, "", httpGunYAML("http/scenario", target, m), atoi(m["n"], 1), inst)
+		conf := shot.PoolYAML("http/scenario", f, "", httpGunYAML(gun, target, m), atoi(m["n"], 1), inst)
 		return fmtRun(runEngine(conf, 60*time.Second, debug))
 	case "grpc":
 		var reqs []shot.GrpcReq
@@ -369,8 +410,14 @@ func runRun(m map[string]string) string {
 			}
 			reqs = append(reqs, q)
 		}
-		addr, stop := newHostileGrpc(atoi(m["stopafter"], 0))
-		defer stop()
+		addr := ""
+		if k := atoi(m["stopafter"], 0); k > 0 {
+			var stop func()
+			addr, stop = newHostileGrpc(k)
+			defer stop()
+		} else {
+			addr = sharedGrpc()
+		}
 		passes := atoi(m["m"], 1)
 		f := shot.TempFile(".json", shot.GrpcAmmo(reqs))
 		gy := fmt.Sprintf(`{type: grpc, target: "%s"`, addr)
@@ -412,8 +459,7 @@ func runRun(m map[string]string) string {
 			}
 			calls = append(calls, c)
 		}
-		addr, stop := newHostileGrpc(0)
-		defer stop()
+		addr := sharedGrpc()
 		f := shot.TempFile(".hcl", shot.GrpcScenarioHCL("gscn", calls))
 		gy := fmt.Sprintf(`{type: grpc/scenario, target: "%s"`, addr)
 		if to := atoi(m["to"], 0); to > 0 {
@@ -629,8 +675,12 @@ func gen(r *rand.Rand, tier string) []string {
 		}
 		return q
 	}
+	instChoices := []int{1, 1, 2, 3}
+	if thorough {
+		instChoices = []int{1, 2, 3, 4, 8}
+	}
 	// 1. direct differential of the modifiers: random chains ...
-	for i := 0; i < mul(3000, 150000); i++ {
+	for i := 0; i < mul(4000, 200000); i++ {
 		out = append(out, fmt.Sprintf("k=mod mods=%s val=%s", randMods(r), hx(randASCII(r, r.Intn(14)))))
 	}
 	// ... and EXHAUSTIVELY every (start, end) in a window around the value's length, for every short length
@@ -730,7 +780,7 @@ func gen(r *rand.Rand, tier string) []string {
 		out = append(out, fmt.Sprintf("k=jsonpath path=%s body=%s", []string{"result", "item0", "missing", "ab", "items"}[r.Intn(5)], randBody()))
 	}
 	// 5. engine runs: plain http guns x behaviours x gun settings
-	for i := 0; i < mul(60, 2500); i++ {
+	for i := 0; i < mul(80, 6000); i++ {
 		gun := []string{"http", "connect"}[r.Intn(2)]
 		opts, cc := randOpts(r, false)
 		var reqs []string
@@ -741,17 +791,22 @@ func gen(r *rand.Rand, tier string) []string {
 			}
 			reqs = append(reqs, s+":"+truthOf(s, cc))
 		}
-		out = append(out, fmt.Sprintf("k=run gun=%s tgt=live inst=%d m=%d%s reqs=%s", gun, []int{1, 2, 4}[r.Intn(3)], 1+r.Intn(3), opts, strings.Join(reqs, ",")))
+		out = append(out, fmt.Sprintf("k=run gun=%s tgt=live inst=%d m=%d%s reqs=%s", gun, instChoices[r.Intn(len(instChoices))], 1+r.Intn(mul(3, 5)), opts, strings.Join(reqs, ",")))
 	}
 	out = append(out, "k=run gun=http tgt=dead inst=2 m=3 reqs=s200:f,s404:f", "k=run gun=connect tgt=dead inst=1 m=2 reqs=s200:f")
 	out = append(out, "k=run gun=http tgt=dead inst=2 m=2 alog=all trace=1 dump=1 dbg=1 reqs=s200:f")
+	// the connect gun's tunnel set-up is refused / answered with garbage / followed by stray bytes / dropped
+	for _, mode := range []string{"c403", "cgarbage", "cextra", "cclose"} {
+		out = append(out, fmt.Sprintf("k=run gun=connect tgt=%s inst=2 m=2 reqs=s200.bjson:f,s404:f", mode))
+		out = append(out, fmt.Sprintf("k=run gun=connect tgt=%s inst=1 m=1 alog=all trace=1 dump=1 dbg=1 reqs=s200.bjson:f", mode))
+	}
 	out = append(out, "k=run gun=http tgt=live inst=2 m=1 rht=1000 reqs=acthang:f,acthang:f")
 	// huge bodies and headers
 	out = append(out, fmt.Sprintf("k=run gun=http tgt=live inst=2 m=1 reqs=s200.bx%d:r200,s500.bx%d.vX-Big~%d:r500", mul(2<<20, 16<<20), 1<<20, 200000))
 	out = append(out, fmt.Sprintf("k=run gun=http tgt=live inst=1 m=1 alog=all dump=1 dbg=1 reqs=s200.bx%d:r200,s200.bx10.vX-Big~%d:r200", 1<<20, 2<<20))
 	// http2 gun: HTTP/2 target (fine), a TLS target without HTTP/2 (the documented fatal condition), a dead one,
 	// and a plain-TCP one (the TLS handshake fails: an error, not the fatal condition)
-	for i := 0; i < mul(3, 60); i++ {
+	for i := 0; i < mul(4, 200); i++ {
 		opts, _ := randOpts(r, false)
 		opts = strings.ReplaceAll(strings.ReplaceAll(opts, " redir=1", ""), " gz=1", "")
 		var reqs []string
@@ -766,7 +821,7 @@ func gen(r *rand.Rand, tier string) []string {
 	out = append(out, "k=run gun=http2 tgt=dead inst=1 m=2 reqs=s200:f")
 	out = append(out, "k=run gun=http2 tgt=live inst=2 m=2 reqs=s200:f,s500.bjson:f")
 	// 6. engine runs: http scenarios x postprocessors x behaviours x gun settings
-	for i := 0; i < mul(250, 12000); i++ {
+	for i := 0; i < mul(300, 24000); i++ {
 		k := 1 + r.Intn(3)
 		opts, cc := randOpts(r, true)
 		var steps []string
@@ -791,11 +846,68 @@ func gen(r *rand.Rand, tier string) []string {
 			}
 			steps = append(steps, fmt.Sprintf("st%d,%s,%s,%s", j, s, truthOf(s, cc), pp))
 		}
-		out = append(out, fmt.Sprintf("k=run gun=http/scenario tgt=live inst=%d n=%d%s steps=%s", []int{1, 1, 2, 3}[r.Intn(4)], 1+r.Intn(4), opts, strings.Join(steps, ";")))
+		out = append(out, fmt.Sprintf("k=run gun=http/scenario tgt=live inst=%d n=%d%s steps=%s", instChoices[r.Intn(len(instChoices))], 1+r.Intn(mul(4, 9)), opts, strings.Join(steps, ";")))
 	}
 	out = append(out, "k=run gun=http/scenario tgt=dead inst=2 n=3 steps=st0,s200,f,H~X-Val~s1:5")
 	out = append(out, "k=run gun=http/scenario tgt=live inst=1 n=2 rht=1000 steps=st0,acthang,f,-")
 	out = append(out, fmt.Sprintf("k=run gun=http/scenario tgt=live inst=1 n=2 steps=st0,s200.bx%d,r200,A~200~%s~-~gt:1000+X~divdata+J~result", mul(1<<20, 8<<20), hx("xxx")))
+	// the http2/scenario gun: HTTP/2 target, TLS target without HTTP/2 (documented fatal), dead and plain-TCP targets
+	h2scripts := []string{"s200.bx5", "s503.bjson", "s404.bhtml", "s200.bx40.actmidclose", "s999.bhtml", "actclose", "s204", "s200.bjson.hX-Val~616263", "s500.bbadjson.hX-Val~6162"}
+	for i := 0; i < mul(8, 400); i++ {
+		k := 1 + r.Intn(3)
+		var steps []string
+		for j := 0; j < k; j++ {
+			sc := h2scripts[r.Intn(len(h2scripts))]
+			var pps []string
+			for q := r.Intn(3); q > 0; q-- {
+				pps = append(pps, randPP(r))
+			}
+			pp := "-"
+			if len(pps) > 0 {
+				pp = strings.Join(pps, "+")
+			}
+			steps = append(steps, fmt.Sprintf("st%d,%s,%s,%s", j, sc, truthOf(sc, clientConf{}), pp))
+		}
+		opts, _ := randOpts(r, true)
+		opts = strings.ReplaceAll(strings.ReplaceAll(opts, " redir=1", ""), " gz=1", "")
+		out = append(out, fmt.Sprintf("k=run gun=http2/scenario tgt=tls2 inst=%d n=%d%s steps=%s", 1+r.Intn(2), 1+r.Intn(3), opts, strings.Join(steps, ";")))
+	}
+	out = append(out, "k=run gun=http2/scenario tgt=tls1 inst=1 n=2 steps=st0,s200.bjson,r200,J~result;st1,s200,r200,-")
+	out = append(out, "k=run gun=http2/scenario tgt=tls1 inst=1 n=2 steps=st0,s200,r200,tpl;st1,s200,r200,-")
+	out = append(out, "k=run gun=http2/scenario tgt=tls1 inst=3 n=3 alog=all steps=st0,s200.bjson,r200,-")
+	out = append(out, "k=run gun=http2/scenario tgt=dead inst=1 n=2 steps=st0,s200,f,H~X-Val~s1:5;st1,s200,f,-")
+	out = append(out, "k=run gun=http2/scenario tgt=live inst=2 n=2 steps=st0,s200,f,-")
+	// GRID: every gun setting x every class of response, one request / one step per class, for the three HTTP/1.1 guns;
+	// scenario steps carry one postprocessor of every kind
+	gridOpts := []string{"", " alog=all", " alog=warning", " alog=error", " trace=1", " dump=1", " dbg=1", " redir=1", " gz=1", " shc=2",
+		" alog=all trace=1 dump=1 dbg=1 redir=1 gz=1 shc=2", " alog=warning dbg=1 dump=1"}
+	gridScripts := []string{"s200.bempty", "s200.bjson.hX-Val~616263", "s404.bempty", "s404.bhtml", "s500.bempty", "s503.bbadjson", "s0.bempty", "s999.bx4096",
+		"s204", "s304", "s100", "i103.s200.bjson", "actclose", "actreset", "actgarbage", "actbadhdr", "s200.bjson.actmidclose", "s200.bx10.c100",
+		"s500.bhtml.actbadchunk", "s200.bjson.actcutchunk", "s200.bjson.actbadgzip", "s404.bx7.actdupcl", "s200.bjson.actnegcl", "s200.bx7.actbadte",
+		"s200.bjson.actmany1xx", "s200.bjson.actfew1xx", "s200.bjson.actnulhdr", "s500.bhtml.actnoreason", "s200.bx4096.actslow", "s200.bjson.actextra",
+		"s200.bjson.actbadver", "actshortstatus", "s200.bx7.actnolen", "s302.bhtml.hLocation~" + hx("/p/0"), "s307.bempty.hLocation~" + hx("http://%zz/"),
+		"s301.hLocation~" + hx("http://"+shot.DeadAddr()+"/x"), "s200.bx10.vX-Big~300000", "s418.bempty.hX-Val~61"}
+	ccOf := func(o string) clientConf {
+		return clientConf{gzip: strings.Contains(o, "gz=1"), redir: strings.Contains(o, "redir=1")}
+	}
+	for _, o := range gridOpts {
+		var reqs []string
+		for _, sc := range gridScripts {
+			reqs = append(reqs, sc+":"+truthOf(sc, ccOf(o)))
+		}
+		for _, gun := range []string{"http", "connect"} {
+			out = append(out, fmt.Sprintf("k=run gun=%s tgt=live inst=2 m=1%s reqs=%s", gun, o, strings.Join(reqs, ",")))
+		}
+		gridPP := []string{"-", "H~X-Val~s1:5", "A~200~-~-~-", "A~0~" + hx("result") + "~-~gt:10", "J~result", "X~divdata", "X~count", "H~X-Val~up/s2:-9:1+J~missing"}
+		if !thorough {
+			gridPP = []string{"-", "H~X-Val~s1:5+A~0~" + hx("x") + "~-~gt:1+J~result+X~divdata"}
+		}
+		for _, pp := range gridPP {
+			for _, sc := range gridScripts {
+				out = append(out, fmt.Sprintf("k=run gun=http/scenario tgt=live inst=1 n=1%s steps=st0,%s,%s,%s", o, sc, truthOf(sc, ccOf(o)), pp))
+			}
+		}
+	}
 	// response-derived variables flow into the next request: header / json / xpath values of every shape
 	for _, src := range []string{"H~X-Val", "H~X-Val~s1:3", "J~result", "J~items", "J~ab", "X~divdata", "X~title", "X~none", "X~href"} {
 		for _, hv := range []string{"abc", "a b\tc", "%zz", "\x7f{{", "../../x", strings.Repeat("k", 9000)} {
@@ -806,7 +918,7 @@ func gen(r *rand.Rand, tier string) []string {
 		}
 	}
 	// 7. engine runs: gRPC guns
-	for i := 0; i < mul(25, 1200); i++ {
+	for i := 0; i < mul(30, 2000); i++ {
 		var reqs []string
 		for j := 1 + r.Intn(6); j > 0; j-- {
 			reqs = append(reqs, randGrpcKind(r))
@@ -826,7 +938,7 @@ func gen(r *rand.Rand, tier string) []string {
 	out = append(out, "k=run gun=grpc tgt=grpc inst=1 m=1 to=600 reqs=hang:0,ok:0")
 	out = append(out, "k=run gun=grpc tgt=grpc inst=2 m=4 stopafter=3 reqs=ok:0,ok:0")
 	out = append(out, "k=run gun=grpc tgt=grpc inst=2 m=1 alog=all dbg=1 reqs=big:0,ok:0,garbage:1")
-	for i := 0; i < mul(40, 2000); i++ {
+	for i := 0; i < mul(50, 3000); i++ {
 		k := 1 + r.Intn(3)
 		var calls []string
 		for j := 0; j < k; j++ {
@@ -883,10 +995,10 @@ func class(input, obs string) string {
 func workers() int {
 	for i, a := range os.Args {
 		if (a == "-tier" || a == "--tier") && i+1 < len(os.Args) && os.Args[i+1] == "thorough" {
-			return 12
+			return 8
 		}
 		if a == "-tier=thorough" || a == "--tier=thorough" {
-			return 12
+			return 8
 		}
 	}
 	return 6
